@@ -201,7 +201,7 @@ STMT_FLAGS = [
     "fn_default_free",  # parameter defaults that read free (context) names
     "fn_comp_free",     # comprehension inside a function whose element/condition reads a free name
     "fn_late_local",    # inner function reads an enclosing-function local bound later in the text
-    "comp_var_reuse",   # a comprehension variable whose name is also read as a free name elsewhere
+    "comp_var_reuse",   # in a function: a comprehension variable whose name is also read as a free name there
     "keyerror_name",    # the block mentions the builtin KeyError (which mako's strict-undefined lookups also use)
 ]
 ALL_FLAGS = frozenset(EXPR_FLAGS + STMT_FLAGS)
@@ -939,8 +939,10 @@ class ExprGen:
                 w = self.n(4)
                 if w <= 1:
                     t = self.fresh(stem)
-                    if self.block_mode and self.on("comp_var_reuse") and self.free_ok and self.chance(12):
-                        # the comprehension variable has the name of a free variable that is read elsewhere
+                    if self.block_mode and self.in_fn > 0 and self.on("comp_var_reuse") and self.free_ok and self.chance(12):
+                        # inside a function, the comprehension variable has the name of a free variable that the function
+                        # reads elsewhere (at the top level of a block test_ast.py::test_locate_identifiers_9 pins that a
+                        # comprehension variable counts as assigned by the block, so that is not generated)
                         t = self.pick(self.env["int"])
                         self.reused.add(t)
                     target = _store(t)
